@@ -35,6 +35,7 @@ type c08Case struct {
 	RmAmb   bool        `json:"rmamb,omitempty"` // pdist: ambiguous positions removed from the normalisation
 	// Shared: one model value serves every DistMatrix call of the case (as build distboot does for its
 	// replicates); RangeAll: the calls use the range mode with both ranges = all rows
+	Alpha    float64 `json:"alpha,omitempty"` // > 0: gamma-distributed rates with this shape
 	Shared   bool `json:"shared_model,omitempty"`
 	RangeAll bool `json:"range_all,omitempty"`
 	Cpus    int         `json:"cpus,omitempty"`
@@ -165,7 +166,7 @@ func c08Rel(c *mc.Ctx, cs c08Case) {
 	}
 	dist := func(seqs []string, w []float64, cpus int) (m [][]float64, e error, pn bool) {
 		p, msg := mc.Guard(func() {
-			if !cs.Shared && !cs.RangeAll {
+			if !cs.Shared && !cs.RangeAll && cs.Alpha == 0 {
 				m, e = c08Dist(seqs, w, cs.Model, cs.RmGaps, cs.GapMut, cpus)
 				return
 			}
@@ -184,7 +185,7 @@ func c08Rel(c *mc.Ctx, cs c08Case) {
 			if cs.RangeAll {
 				lo, hi = 0, len(seqs)-1
 			}
-			m, e = dna.DistMatrix(al, w, md, lo, hi, lo, hi, false, 0, cpus)
+			m, e = dna.DistMatrix(al, w, md, lo, hi, lo, hi, cs.Alpha > 0, cs.Alpha, cpus)
 		})
 		if p {
 			viol("panic", msg)
@@ -348,7 +349,7 @@ func c08Rel(c *mc.Ctx, cs c08Case) {
 		}
 	}
 	if distinct {
-		c.Nontrivial(fmt.Sprintf("rel|%v|%s|%v|%d|%v|%v", cs.Seqs, cs.Model, cs.RmGaps, cs.GapMut, cs.Shared, cs.RangeAll))
+		c.Nontrivial(fmt.Sprintf("rel|%v|%s|%v|%d|%v|%v|%v", cs.Seqs, cs.Model, cs.RmGaps, cs.GapMut, cs.Shared, cs.RangeAll, cs.Alpha))
 	}
 	c.Outcome("rel:" + cs.Model + ":ok")
 	if distinct && L >= 2 {
@@ -875,6 +876,9 @@ func c08Tasks(tier string) []mc.Task {
 								if sh.n*sh.L <= 6 {
 									// one model value for all calls of the case; range mode
 									c08Rel(c, c08Case{Kind: "rel", Seqs: seqs, Model: model, RmGaps: rm, GapMut: gm, Shared: true})
+									if model != "pdist" && model != "rawdist" {
+										c08Rel(c, c08Case{Kind: "rel", Seqs: seqs, Model: model, RmGaps: rm, Alpha: 0.5}) // gamma-distributed rates
+									}
 									if sh.n*sh.L <= 4 || (sh.n == 3 && gm == 0) {
 										c08Rel(c, c08Case{Kind: "rel", Seqs: seqs, Model: model, RmGaps: rm, GapMut: gm, RangeAll: true})
 									}
@@ -992,7 +996,7 @@ func init() {
 		Level: "model_checking",
 		Rule: "schedule part: stateless DFS over all interleavings of the real dna.DistMatrix goroutines (main, producer, cpus workers; scheduling points at every go/channel/mutex/WaitGroup operation) with iterative preemption bounds 0,1,2 (quick) / 0..3 (thorough), for 3 sequences x cpus 1..3 x {k2p (with a +Inf pair), jc}, 4 sequences with overlapping ranges, 15 sequences (105 pairs > channel capacity); " +
 			"function-entry part: 3 sequences, cpus 2 (3 thorough), 5 models, every function entry of goalign (functions of >= 4 statements) an additional scheduling point, preemption bound 1; "+
-			"fault part: the same exploration with a DistModel that fails at each Distance call / each Sequence call in turn, and with one that fails at every Distance call from the k-th on (k=0,1; cpus 2,3; preemption bound 2/3); relational part: all alignments of shape 2x1,2x2,3x1,2x3,3x2 (+2x4,3x3 thorough; 3x3 over {A,C,T,-} for pdist and rawdist) over {A,C,G,T,-} x 7 models x rm-gaps x gap-count modes under every column permutation, replication (concat, weights) k=2,3, unit weights, reverse complement, every row permutation, cpus 1,2,3; the shapes of <= 6 cells also with ONE model value serving all calls of a case (as build distboot does) and, for 2x1, 2x2, 3x1, 3x2, in range mode with both ranges = all rows; thread part (GOMAXPROCS following the thread count, as --threads does): all 2x4 (thorough 2x5) alignments over {A,C,B,V} x {f81,tn93,pdist} (thorough also f84, jc), with and without fractional weights, threads = GOMAXPROCS = 1,2,3,4 must give the same bits. " +
+			"fault part: the same exploration with a DistModel that fails at each Distance call / each Sequence call in turn, and with one that fails at every Distance call from the k-th on (k=0,1; cpus 2,3; preemption bound 2/3); relational part: all alignments of shape 2x1,2x2,3x1,2x3,3x2 (+2x4,3x3 thorough; 3x3 over {A,C,T,-} for pdist and rawdist) over {A,C,G,T,-} x 7 models x rm-gaps x gap-count modes under every column permutation, replication (concat, weights) k=2,3, unit weights, reverse complement, every row permutation, cpus 1,2,3; the shapes of <= 6 cells also with gamma-distributed rates (alpha 0.5), with ONE model value serving all calls of a case (as build distboot does) and, for 2x1, 2x2, 3x1, 3x2, in range mode with both ranges = all rows; thread part (GOMAXPROCS following the thread count, as --threads does): all 2x4 (thorough 2x5) alignments over {A,C,B,V} x {f81,tn93,pdist} (thorough also f84, jc), with and without fractional weights, threads = GOMAXPROCS = 1,2,3,4 must give the same bits. " +
 			"distinct_nontrivial counts distinct (case, schedule) executions of the schedule/fault parts plus relational cases whose matrix has a non-zero entry. states/transitions are nodes/edges of the schedule choice trees.",
 		Assumptions: []string{
 			"sequential consistency (Go programs without data races are SC; races are what the vector-clock check reports)",
